@@ -67,3 +67,52 @@ Fixpoint subst_named (name : string) (repl : node) (d : node) : node :=
   | NSeq i els => NSeq i (map (fun e => if hit e then repl else subst_named name repl e) els)
   | _ => d
   end.
+
+(* ---- well-formed inputs (round 3: C10_unique_names, C10_rename) ---- *)
+(* every node of the tree, the root included *)
+Fixpoint an_all (d : node) : list node :=
+  d :: match d with
+       | NMap _ kvs => flat_map (fun kv => an_all (fst kv) ++ an_all (snd kv)) kvs
+       | NSeq _ els => flat_map an_all els
+       | NSet _ els => flat_map an_all els
+       | NLeaf _ _ => []
+       end.
+
+(* the tree is a faithful picture of a heap: one identity, one object *)
+Definition an_heap_ok (d : node) : Prop :=
+  forall n m, In n (an_all d) -> In m (an_all d) -> node_oid n = node_oid m -> n = m.
+
+(* anchors sit on Scalars (computable): no Hash / Array / Set carries an
+   anchor name, keys are Scalars *)
+Definition an_noname (n : node) : bool := match c10_name n with None => true | Some _ => false end.
+Fixpoint an_scalars_only (d : node) : bool :=
+  match d with
+  | NLeaf _ _ => true
+  | NMap _ kvs => an_noname d && forallb (fun kv => is_leaf (fst kv) && an_scalars_only (snd kv)) kvs
+  | NSeq _ els => an_noname d && forallb an_scalars_only els
+  | NSet _ _ => an_noname d
+  end.
+
+(* a document of the property's quantifier: a container whose anchors sit on
+   Scalars that are hash values or array elements *)
+Definition an_doc_ok (d : node) : bool := negb (is_leaf d) && keys_plain d && an_scalars_only d.
+
+(* one anchored object per name (a loaded document may re-define a name:
+   `[&x 1, &x 2]`; such inputs are outside the statement) *)
+Definition one_node_per_name (d : node) : Prop :=
+  forall n m a, In n (places d) -> In m (places d) -> c10_name n = Some a -> c10_name m = Some a -> n = m.
+
+(* ... across the two documents handed to the merge proper *)
+Definition an_pair_unique (l r : node) : Prop :=
+  forall n m a, In n (places l ++ places r) -> In m (places l ++ places r) ->
+    c10_name n = Some a -> c10_name m = Some a -> n = m.
+
+(* the node with its anchor renamed *)
+Definition an_with_name (nn : string) (n : node) : node :=
+  let upd i := mkinfo (oid i) (Some nn) (has_anchor_attr i) (tag i) in
+  match n with
+  | NLeaf i v => NLeaf (upd i) v
+  | NMap i kvs => NMap (upd i) kvs
+  | NSeq i els => NSeq (upd i) els
+  | NSet i els => NSet (upd i) els
+  end.
